@@ -645,6 +645,25 @@ def gen_client_scenario(rng, n_ops=None, big_batches=False):
     return dict(kind="uclient", datasets=[ds], ops=ops)
 
 
+def gen_long_client_scenario(rng, rounds=30, per_round=40):
+    """one backtest driven far beyond anything the other histories reach: rounds x (per_round market orders, one tick) —
+    a couple of thousand executed trades on one exchange, one tick of more than a thousand orders (capacity limits,
+    counters, logs that are trimmed or re-allocated only show at such sizes; what lies beyond — a limit of ten thousand,
+    say — is out of reach of a check that has to end in minutes, DESIGN 8.7). Used in the thorough tier and whenever the
+    sources differ from the recorded fingerprint."""
+    quotes = [[f2b(100.0), f2b(101.0), 1000 + i, "ABC"] for i in range(rounds + 3)]
+    ops = []
+    for r in range(rounds):
+        t = "MarketBuy" if r % 3 else "MarketSell"
+        for k in range(per_round):
+            ops.append(dict(op="insert", id=0, order=dict(type=t, symbol="ABC", shares=f2b(float(1 + (k % 7))), price=None, via="json")))
+        ops.append(dict(op="tick", id=0))
+    for k in range(1030):
+        ops.append(dict(op="insert", id=0, order=dict(type="MarketSell" if k % 2 else "MarketBuy", symbol="ABC", shares=f2b(float(1 + (k % 5))), price=None, via="json")))
+    ops += [dict(op="tick", id=0), dict(op="tick", id=0), dict(op="now", id=0)]
+    return dict(kind="uclient", datasets=[dict(name="A", quotes=quotes, style="date_major")], ops=ops, long_run=True)
+
+
 def g_client_res(op, r):
     """observed response of the client as an sres term"""
     o = op["op"]
@@ -761,6 +780,8 @@ def run_client_lockstep(res, prop, tier, seed, wd):
     rng = random.Random(seed + 23)
     n = tier_size(tier, 40, 600)
     scs = [gen_client_scenario(rng, big_batches=(i % 4 == 3)) for i in range(n)]
+    if tier == "thorough" or scale() > 1:
+        scs.append(gen_long_client_scenario(rng))
     # the same kind of history through the crate's reqwest Client over real HTTP on the loopback interface
     n_http = tier_size(tier, 8, 120)
     http_scs = [dict(gen_client_scenario(rng, big_batches=(i % 4 == 3)), kind="uhttpclient") for i in range(n_http)]
